@@ -6,6 +6,8 @@ automaton `WellFormed`, `IsLongestValidPrefix`, rule classification `firstViolat
 import SuccinctlyVerif.Proof.Utf8ScalarMain
 import SuccinctlyVerif.Proof.Utf8Avx2
 import SuccinctlyVerif.Proof.Utf8BroadwordMain
+import SuccinctlyVerif.Proof.Utf8Prefix
+import SuccinctlyVerif.Proof.Utf8LineCol
 import SuccinctlyVerif.Proof.Utf8Codec
 namespace SV.Props.C13
 open SV SV.Utf8
@@ -90,6 +92,53 @@ theorem error_kind_and_offset_partial (b : List Byte) (e : Utf8Error) (h : valid
 
 example : validateScalar [0x41#8, 0xED#8, 0xA0#8, 0x80#8] =
     some { offset := 1, line := 1, column := 2, kind := .surrogateCodepoint } := by decide
+
+/-- The executable `validPrefixLen` of the spec (used by the driver for the expected offset of the
+`val` stream) is the length of the longest well-formed prefix, for every byte string. -/
+theorem validPrefixLen_spec (b : List Byte) : IsLongestValidPrefix b (validPrefixLen b) :=
+  Utf8.validPrefixLen_spec b
+
+example : validPrefixLen [0x41#8, 0xC3#8, 0x28#8] = 1 := by decide
+
+/-- The offset law in executable form: `offset = validPrefixLen b + i`, kind and `i` given by
+`firstViolation` of the input after its longest valid prefix; `i = 0` unless the kind is
+`InvalidContinuationByte`; the offset lies inside the input. -/
+theorem error_offset_validPrefixLen (b : List Byte) (e : Utf8Error) (h : validateScalar b = some e) :
+    ∃ i, firstViolation (b.drop (validPrefixLen b)) = some (e.kind, i) ∧
+      e.offset = validPrefixLen b + i ∧ (e.kind ≠ .invalidContinuationByte → i = 0) ∧ e.offset < b.length := by
+  obtain ⟨n, i, h1, h2, h3, h4⟩ := error_kind_and_offset_partial b e h
+  have hn : n = validPrefixLen b := longest_unique h1 (validPrefixLen_spec b)
+  subst hn
+  refine ⟨i, h2, h3, h4, ?_⟩
+  have := firstViolation_idx_lt h2
+  rw [List.length_drop] at this
+  omega
+
+/-- `error_linecol`: the reported line and column are those of the reported offset — line = 1 +
+number of `\n` before it, column = 1 + number of bytes after the last `\n` before it (LF-only
+lines, as this module defines them); proved through the 8-byte newline-counting kernel. -/
+theorem error_linecol (b : List Byte) (e : Utf8Error) (h : validateScalar b = some e) :
+    (e.line, e.column) = lineColLF b e.offset := by
+  obtain ⟨i, _, _, _, hlt⟩ := error_offset_validPrefixLen b e h
+  unfold validateScalar at h
+  cases hr : scalarRaw b with
+  | none => rw [hr] at h; cases h
+  | some r =>
+    rw [hr] at h
+    simp only [Option.map_some, Option.some.injEq] at h
+    subst h
+    simp only [errAt] at hlt ⊢
+    rw [lineAndColumn_eq]
+    have : ¬ r.2 > b.length := by omega
+    simp [this]
+
+/-- `line_and_column` itself (any input, any offset): the LF line/column, or a panic past the end. -/
+theorem line_and_column_eq (input : List Byte) (offset : Nat) :
+    lineAndColumn input offset = if offset > input.length then none else some (lineColLF input offset) :=
+  lineAndColumn_eq input offset
+
+example : lineAndColumn [0x0A#8, 0x41#8, 0x0A#8, 0x0A#8, 0x41#8, 0x41#8, 0x41#8, 0x41#8, 0x0A#8, 0x41#8] 10 = some (5, 2) := by
+  decide
 
 /-- The property's full offset claim (never asserted). -/
 def error_offset_full_statement : Prop :=
